@@ -82,6 +82,18 @@ template <typename R> void int_powers() {
     }
     std::printf("{\"k\":\"psum\",\"what\":\"int_powers\",\"R\":\"%s\",\"n\":%lld,\"mismatches\":%lld}\n", rep_name<R>(), n, mism);
 }
+// int_pow<E> on a floating rep for every exponent of the property's range and a few beyond: the exact power to a few ulps
+// (the library multiplies repeatedly), wherever the exact power is a comfortable normal number
+template <typename F, int E> bool float_pow_ok(F x) {
+    long double e = std::pow((long double)x, (long double)E);
+    F got = val(int_pow<E>(meters(x)));
+    if (!(std::fabs(e) > (long double)std::numeric_limits<F>::min() * 1e6L && std::fabs(e) < (long double)std::numeric_limits<F>::max() / 1e6L)) return true;
+    return std::fabs((long double)got - e) <= 16 * (long double)std::numeric_limits<F>::epsilon() * std::fabs(e);
+}
+template <typename F> bool float_pows_ok(F x) {
+    return float_pow_ok<F, -7>(x) && float_pow_ok<F, -6>(x) && float_pow_ok<F, -5>(x) && float_pow_ok<F, -4>(x) && float_pow_ok<F, -3>(x) && float_pow_ok<F, -2>(x) && float_pow_ok<F, -1>(x) &&
+           float_pow_ok<F, 2>(x) && float_pow_ok<F, 3>(x) && float_pow_ok<F, 4>(x) && float_pow_ok<F, 5>(x) && float_pow_ok<F, 6>(x) && float_pow_ok<F, 7>(x) && float_pow_ok<F, 9>(x);
+}
 template <typename F> void float_products(uint64_t seed) {
     Rng rng(seed ^ sizeof(F) * 17);
     long long n = 0, mism = 0;
@@ -94,7 +106,7 @@ template <typename F> void float_products(uint64_t seed) {
         // int_pow<-1>, <3>, <-2>: the library's own repeated multiplication; compare with the exact power to a few ulps
         F p3 = val(int_pow<3>(meters(x))), e3 = x * x * x, pm2 = val(int_pow<-2>(meters(x))), em2 = F(1) / (x * x);
         auto close = [](F a, F b) { return (a != a && b != b) || a == b || std::fabs(a - b) <= 4 * std::numeric_limits<F>::epsilon() * std::fabs(b); };
-        ok = ok && close(p3, e3) && close(pm2, em2);
+        ok = ok && close(p3, e3) && close(pm2, em2) && float_pows_ok<F>(x);
         if (!ok) { ++mism; if (mism < 20) std::printf("{\"k\":\"pmis\",\"what\":\"float ops\",\"R\":\"%s\",\"x\":%s,\"y\":%s}\n", rep_name<F>(), fwire(x).c_str(), fwire(y).c_str()); }
     };
     F sp[] = {F(0), -F(0), F(1), F(-1), F(2), F(0.5), F(3), F(1e10), F(1e-10), std::numeric_limits<F>::infinity(), std::numeric_limits<F>::quiet_NaN(), std::numeric_limits<F>::max(), std::numeric_limits<F>::min(), std::numeric_limits<F>::denorm_min(), F(-8), F(27)};
